@@ -32,6 +32,8 @@ func checkC05(c *Ctx) {
 	c.Rule("C05-R3", "single-lane input pipeline: one sender and one receiver of keychan, both go roots started only in engage with matching WaitGroup accounting; events are sent in slice order")
 	c.Rule("C05-R4", "every constructed Event has its timestamp set (time.Now()/SetEventNow); an embedded *EventTime is non-nil")
 	c.Rule("C05-R5", "ChannelEvents closes its channel on every exit (deferred close in the entry block)")
+	c.Rule("C05-R6", "an input chunk queued for the parser goroutine owns its backing array (allocated per chunk): queued input cannot be overwritten by a later read")
+	c.Expect("C05-R6", 1)
 	c.Expect("C05-R1", 6)
 	c.Expect("C05-R2", 2)
 	c.Expect("C05-R3", 5)
@@ -57,6 +59,7 @@ func checkC05(c *Ctx) {
 		c05PostEvent(c, p)
 		c05Pipeline(c, p)
 		c05Channel(c, p)
+		checkChunkOwnership(c, p, "C05-R6")
 	}
 }
 
